@@ -38,26 +38,33 @@ class FakeSock:
 class Script:
     """environment + observer for one run of serve()"""
 
-    def __init__(self, ctx, events, maxc):
+    def __init__(self, ctx, events, maxc, nlisten=1):
         self.ctx = ctx
         self.events = list(events)
         self.max = maxc
         self.trace = []          # model events issued so far
-        self.backlog = 0
+        self.backlogs = [0] * nlisten        # per listening socket; the model's backlog is their sum
         self.running = []        # fake worker sockets whose thread still runs
-        self.listener = FakeSock("listener")
+        self.listeners = [FakeSock("listener%d" % i) for i in range(nlisten)]
+        self.servers = []
         self.shutdown = FakeSock("shutdown")
         self.shutdown_signalled = False
-        self.server = None
         self.accepted = 0
         self.observed = []       # per select call: what serve() polled / what we answered
         self.problems = []
         self.returned = False
 
     # environment events ------------------------------------------------------------------------
+    @property
+    def backlog(self):
+        return sum(self.backlogs)
+
     def apply_env(self, ev):
-        if ev == "arrive":
-            self.backlog += 1
+        if isinstance(ev, tuple):
+            self.backlogs[ev[1] % len(self.backlogs)] += 1
+            ev = "arrive"
+        elif ev == "arrive":
+            self.backlogs[0] += 1
         elif ev == "finish":
             if not self.running:
                 return False
@@ -71,7 +78,7 @@ class Script:
     def ready_set(self, rlist):
         r = []
         for s in rlist:
-            if s is self.listener and self.backlog > 0:
+            if s in self.listeners and self.backlogs[self.listeners.index(s)] > 0:
                 r.append(s)
             elif s is self.shutdown and self.shutdown_signalled:
                 r.append(s)
@@ -81,9 +88,12 @@ class Script:
 
     def select(self, rlist, wlist, xlist, timeout=None):
         # one main-loop iteration starts here: record what is polled
-        polls_listener = self.listener in rlist
+        polled = [l for l in self.listeners if l in rlist]
+        polls_listener = bool(polled)
+        if polled and len(polled) != len(self.listeners):
+            self.problems.append(("only some listening sockets are polled", [l.name for l in polled]))
         workers_polled = sorted(s.name for s in rlist if s.name.startswith("w"))
-        held = sorted(s.name for s in self.server.worker_sockets)
+        held = sorted(s.name for srv in self.servers for s in srv.worker_sockets)
         if workers_polled != held:
             self.problems.append(("worker sockets held but not polled", held, workers_polled))
         # feed environment events until something is ready
@@ -111,19 +121,20 @@ class Script:
         return r, [], []
 
 
-def run_scripted(ctx, events, maxc):
+def run_scripted(ctx, events, maxc, nlisten=1):
     from radicale import config, server
     from common import quiet_radicale
     quiet_radicale()
-    sc = Script(ctx, events, maxc)
+    sc = Script(ctx, events, maxc, nlisten)
+    counter = [0]
 
     class FakeServer:
         def __init__(self, configuration, family, address, handler):
-            self.socket = sc.listener
+            self.index = len(sc.servers)
+            self.socket = sc.listeners[self.index]
             self.worker_sockets = set()
             self.server_address = ("127.0.0.1", 0)
-            self.counter = 0
-            sc.server = self
+            sc.servers.append(self)
 
         def set_app(self, app):
             pass
@@ -133,17 +144,15 @@ def run_scripted(ctx, events, maxc):
 
         def handle_request(self):
             # accept one connection and start a worker
-            if sc.backlog <= 0:
+            if sc.backlogs[self.index] <= 0:
                 sc.problems.append(("accept with empty backlog",))
                 return
-            sc.backlog -= 1
-            self.counter += 1
-            w = FakeSock("w%d" % self.counter)
+            sc.backlogs[self.index] -= 1
+            counter[0] += 1
+            w = FakeSock("w%d" % counter[0])
             self.worker_sockets.add(w)
             sc.running.append(w)
             sc.accepted += 1
-            if sc.shutdown_signalled and sc.observed and False:
-                pass
 
         def server_close(self):
             pass
@@ -165,7 +174,8 @@ def run_scripted(ctx, events, maxc):
     server.Application = lambda configuration: None
     try:
         conf = config.load()
-        conf.update({"server": {"hosts": "127.0.0.1:5232", "max_connections": str(maxc)}}, "verif", privileged=True)
+        conf.update({"server": {"hosts": ", ".join("127.0.0.1:%d" % (5232 + i) for i in range(nlisten)),
+                                "max_connections": str(maxc)}}, "verif", privileged=True)
         server.serve(conf, shutdown_socket=sc.shutdown)
         sc.returned = True
     finally:
@@ -179,15 +189,16 @@ def scripted(ctx):
     n = ctx.n(1500, 60000)
     for i in range(n):
         maxc = rng.choice([0, 1, 1, 2, 3, 5])
+        nlisten = rng.choice([1, 2, 2, 3])          # several `hosts` / a name resolving to IPv4 and IPv6
         m = rng.randint(1, 40)
         events = []
         for _ in range(m):
             r = rng.random()
-            events.append("arrive" if r < 0.35 else "finish" if r < 0.6 else "loop" if r < 0.95 else "signal")
-        sc = run_scripted(ctx, list(events), maxc)
-        case = {"max_connections": maxc, "events": events}
+            events.append(("arrive", rng.randrange(nlisten)) if r < 0.35 else "finish" if r < 0.6 else "loop" if r < 0.95 else "signal")
+        sc = run_scripted(ctx, list(events), maxc, nlisten)
+        case = {"max_connections": maxc, "listeners": nlisten, "events": events}
         peak = max([o["workers"] for o in sc.observed] + [0])
-        ctx.case("scripted:max=%d" % maxc, sample=dict(case, observed=sc.observed[:6]), key=case,
+        ctx.case("scripted:max=%d:listeners=%d" % (maxc, nlisten), sample=dict(case, observed=sc.observed[:6]), key=case,
                  nontrivial=(maxc > 0 and peak >= maxc) or any("signal" == e for e in events))
         # oracle (model independent)
         for p in sc.problems:
@@ -256,18 +267,19 @@ def gate(ctx):
 
 
 def real_sockets(ctx):
-    """n > max clients against a real server with a blocking handler"""
+    """n > max clients against a real server (one or two listening sockets) with a blocking handler"""
     import http.client
     from radicale import config, server
     from common import quiet_radicale
     quiet_radicale()
-    rounds = ctx.n(2, 12)
+    rounds = ctx.n(3, 16)
     rng = ctx.rng("real")
     for rnd in range(rounds):
         maxc = rng.choice([1, 2, 3])
-        nclients = maxc + rng.randint(1, 3)
+        nlisten = 1 if rnd % 3 == 2 else 2
+        nclients = maxc + rng.randint(2, 4)
         state = {"inside": 0, "peak": 0, "served": 0}
-        gate_ev = threading.Event()
+        gate_sem = threading.Semaphore(0)
         lock = threading.Lock()
         orig_call = server.Application.__call__
 
@@ -275,22 +287,25 @@ def real_sockets(ctx):
             with lock:
                 state["inside"] += 1
                 state["peak"] = max(state["peak"], state["inside"])
-            gate_ev.wait(timeout=10)
+            gate_sem.acquire(timeout=10)
             try:
                 return orig_call(self, environ, start_response)
             finally:
                 with lock:
                     state["inside"] -= 1
                     state["served"] += 1
-        s = socket.socket()
-        s.bind(("127.0.0.1", 0))
-        port = s.getsockname()[1]
-        s.close()
+        ports = []
+        for _ in range(nlisten):
+            s = socket.socket()
+            s.bind(("127.0.0.1", 0))
+            ports.append(s.getsockname()[1])
+            s.close()
         conf = config.load()
         import tempfile
         import shutil
         folder = tempfile.mkdtemp(prefix="rverif-c20-")
-        conf.update({"server": {"hosts": "127.0.0.1:%d" % port, "max_connections": str(maxc), "timeout": "5", "max_content_length": "50"},
+        conf.update({"server": {"hosts": ", ".join("127.0.0.1:%d" % p for p in ports), "max_connections": str(maxc), "timeout": "5",
+                                "max_content_length": "50"},
                      "storage": {"filesystem_folder": folder}, "auth": {"type": "none"}}, "verif", privileged=True)
         sd_in, sd_out = socket.socketpair()
         server.Application.__call__ = blocking_call
@@ -299,6 +314,7 @@ def real_sockets(ctx):
         results = []
 
         def client(i):
+            port = ports[i % len(ports)]
             for attempt in range(50):
                 try:
                     c = http.client.HTTPConnection("127.0.0.1", port, timeout=20)
@@ -322,20 +338,28 @@ def real_sockets(ctx):
             while state["inside"] < maxc and time.time() - t0 < 10:
                 time.sleep(0.01)
             time.sleep(0.3)
-            peak_blocked = state["peak"]
+            # let exactly one request finish: the freed slot may be taken by one queued client only, even if
+            # clients wait on several listening sockets
+            gate_sem.release()
+            t0 = time.time()
+            while state["served"] < 1 and time.time() - t0 < 10:
+                time.sleep(0.01)
+            time.sleep(0.3)
             # shutdown while requests are in flight, then release them
             sd_in.close()
             time.sleep(0.1)
-            gate_ev.set()
+            for _ in range(nclients + 2):
+                gate_sem.release()
             th.join(timeout=20)
             for c in cts:
                 c.join(timeout=20)
         finally:
             server.Application.__call__ = orig_call
-            gate_ev.set()
+            for _ in range(nclients + 2):
+                gate_sem.release()
             shutil.rmtree(folder, ignore_errors=True)
-        case = {"max_connections": maxc, "clients": nclients, "peak_inside": state["peak"], "results": sorted(results)}
-        ctx.case("real:max=%d" % maxc, sample=case, key=[rnd, maxc, nclients], nontrivial=True)
+        case = {"max_connections": maxc, "listeners": nlisten, "clients": nclients, "peak_inside": state["peak"], "results": sorted(results)}
+        ctx.case("real:max=%d:listeners=%d" % (maxc, nlisten), sample=case, key=[rnd, maxc, nclients], nontrivial=True)
         if state["peak"] > maxc:
             ctx.violation("%d requests were inside the handler at once with max_connections=%d" % (state["peak"], maxc), case)
         if th.is_alive():
@@ -353,7 +377,7 @@ def run(ctx):
                          "blocking handler.  non-trivial = the connection limit was reached or shutdown was signalled")
     ctx.trusted += ["scripted stand-ins for select.select / the server class / sockets (harness/props/c20.py)",
                     "socketserver.ThreadingMixIn, wsgiref, socket time-outs (observed only)"]
-    ctx.assumptions += ["one listening socket", "a worker closes its socket exactly when its request is finished"]
+    ctx.assumptions += ["a worker closes its socket exactly when its request is finished"]
     scripted(ctx)
     gate(ctx)
     real_sockets(ctx)
